@@ -342,7 +342,7 @@ theorem allSet_congr (st st' : Store) (k n : Nat) (h : ∀ i, i < n → st.get (
     simp only [allSet, ih (fun i hi => h i (by omega)), h m (by omega)]
 
 /-- `read_quads` only looks at the slots `slot_calculator` selects. -/
-theorem readQuads_congr (st st' : Store) (slot off sz : Nat) (r : Bool) (hr : r = false → sz ≤ 8)
+theorem readQuads_congr (st st' : Store) (slot off sz : Nat) (r : Bool) (hr : r = false → off % 4 * 8 + sz ≤ 32)
     (h : ∀ i, i < (slotCalc slot off sz r).2.1 →
       st.get ((slotCalc slot off sz r).1 + i) = st'.get ((slotCalc slot off sz r).1 + i)) :
     readQuads st slot off sz r = readQuads st' slot off sz r := by
@@ -496,5 +496,228 @@ theorem map_toNat_inj : ∀ (a b : List Char), a.map Char.toNat = b.map Char.toN
       apply UInt32.toNat_inj.mp
       exact h.1
     rw [hc, map_toNat_inj a b h.2]
+
+/-! ## `read_quads` / `write_quads` as reads and writes of a flat byte memory (C28)
+
+`loadBuf st k a` is byte `a` of the flat memory whose origin is slot `k`; `write_quads(k, off, v)`
+overwrites bytes `[8*off, 8*off + |v|)` of it and makes the slots it spans present. -/
+
+/-- number of slots an access of `sz` bytes at word offset `off` spans -/
+def span (off sz : Nat) : Nat := (off % 4 * 8 + sz + 31) / 32
+
+theorem slotCalc_eq (k off sz : Nat) (r : Bool) (hpos : 0 < sz) (hr : r = false → off % 4 * 8 + sz ≤ 32) :
+    slotCalc k off sz r = (k + off / 4, span off sz, off % 4) := by
+  cases r with
+  | true =>
+    have : (off * 8 + sz + 31) / 32 - (off % 4 * 8 + sz + 31) / 32 = off / 4 := by omega
+    simp only [slotCalc, span, if_true, this]
+  | false =>
+    have h := hr rfl
+    have h1 : (off * 8 + sz + 31) / 32 - 1 = off / 4 := by omega
+    have h2 : (off % 4 * 8 + sz + 31) / 32 = 1 := by omega
+    simp [slotCalc, span, h1, h2]
+
+theorem loadBuf_shift (st : Store) (k off a : Nat) :
+    loadBuf st (k + off / 4) (off % 4 * 8 + a) = loadBuf st k (8 * off + a) := by
+  have e1 : k + off / 4 + (off % 4 * 8 + a) / 32 = k + (8 * off + a) / 32 := by omega
+  have e2 : (off % 4 * 8 + a) % 32 = (8 * off + a) % 32 := by omega
+  simp only [loadBuf, e1, e2]
+
+theorem readQuads_eq (st : Store) (k off sz : Nat) (r : Bool) (hpos : 0 < sz)
+    (hr : r = false → off % 4 * 8 + sz ≤ 32) :
+    readQuads st k off sz r =
+      if allSet st (k + off / 4) (span off sz) = true then
+        some ((List.range sz).map fun a => loadBuf st k (8 * off + a))
+      else none := by
+  have hne : sz ≠ 0 := by omega
+  unfold readQuads
+  rw [if_neg hne, slotCalc_eq k off sz r hpos hr]
+  simp only [loadBuf_shift]
+
+theorem storeQuad_get (st : Store) (k : Nat) (buf : Nat → Nat) (n k' : Nat) :
+    (storeQuad st k buf n).get k' =
+      if k ≤ k' ∧ k' < k + n then some (fun b => if b < 32 then buf (32 * (k' - k) + b) else 0) else st.get k' := rfl
+
+theorem loadBuf_storeQuad (st : Store) (k : Nat) (buf : Nat → Nat) (n k2 a : Nat) :
+    loadBuf (storeQuad st k buf n) k2 a =
+      if k ≤ k2 + a / 32 ∧ k2 + a / 32 < k + n then buf (32 * (k2 + a / 32 - k) + a % 32) else loadBuf st k2 a := by
+  have hm : a % 32 < 32 := Nat.mod_lt _ (by omega)
+  simp only [loadBuf, storeQuad_get]
+  by_cases h : k ≤ k2 + a / 32 ∧ k2 + a / 32 < k + n
+  · simp only [if_pos h, hm, if_true]
+  · simp only [if_neg h]
+
+/-- slots of the store other than the ones the write spans are unchanged -/
+theorem writeQuads_get_other (st : Store) (k off : Nat) (v : List Nat) (r : Bool)
+    (hr : r = false → off % 4 * 8 + v.length ≤ 32) (k' : Nat)
+    (h : ¬ (k + off / 4 ≤ k' ∧ k' < k + off / 4 + span off v.length)) :
+    (writeQuads st k off v r).get k' = st.get k' := by
+  unfold writeQuads
+  by_cases hz : v.length = 0
+  · simp [hz]
+  · simp only [hz, if_false]
+    by_cases hb : v.length % 32 = 0 ∧ off = 0
+    · rw [if_pos hb, storeQuad_get, if_neg]
+      obtain ⟨h1, rfl⟩ := hb
+      simp only [span] at h
+      omega
+    · rw [if_neg hb, slotCalc_eq k off v.length r (by omega) hr]
+      simp only [storeQuad_get]
+      rw [if_neg h]
+
+theorem writeQuads_isSome (st : Store) (k off : Nat) (v : List Nat) (r : Bool) (hpos : 0 < v.length)
+    (hr : r = false → off % 4 * 8 + v.length ≤ 32) (k' : Nat)
+    (h : k + off / 4 ≤ k' ∧ k' < k + off / 4 + span off v.length) :
+    ((writeQuads st k off v r).get k').isSome = true := by
+  unfold writeQuads
+  have hz : v.length ≠ 0 := by omega
+  simp only [hz, if_false]
+  by_cases hb : v.length % 32 = 0 ∧ off = 0
+  · rw [if_pos hb, storeQuad_get, if_pos]
+    · rfl
+    · obtain ⟨h1, rfl⟩ := hb
+      simp only [span] at h
+      omega
+  · rw [if_neg hb, slotCalc_eq k off v.length r hpos hr]
+    simp only [storeQuad_get]
+    rw [if_pos h]; rfl
+
+/-- the flat memory after a write -/
+theorem loadBuf_writeQuads (st : Store) (k off : Nat) (v : List Nat) (r : Bool) (hpos : 0 < v.length)
+    (hr : r = false → off % 4 * 8 + v.length ≤ 32) (a : Nat) :
+    loadBuf (writeQuads st k off v r) k a =
+      if 8 * off ≤ a ∧ a < 8 * off + v.length then v.getD (a - 8 * off) 0 else loadBuf st k a := by
+  unfold writeQuads
+  have hz : v.length ≠ 0 := by omega
+  simp only [hz, if_false]
+  by_cases hb : v.length % 32 = 0 ∧ off = 0
+  · obtain ⟨h1, rfl⟩ := hb
+    rw [if_pos ⟨h1, rfl⟩, loadBuf_storeQuad]
+    by_cases hin : a < v.length
+    · have c1 : k ≤ k + a / 32 ∧ k + a / 32 < k + v.length / 32 := by omega
+      have c2 : 8 * 0 ≤ a ∧ a < 8 * 0 + v.length := by omega
+      have e : 32 * (k + a / 32 - k) + a % 32 = a := by omega
+      rw [if_pos c1, if_pos c2, e]; simp
+    · have c1 : ¬ (k ≤ k + a / 32 ∧ k + a / 32 < k + v.length / 32) := by omega
+      have c2 : ¬ (8 * 0 ≤ a ∧ a < 8 * 0 + v.length) := by omega
+      rw [if_neg c1, if_neg c2]
+  · rw [if_neg hb, slotCalc_eq k off v.length r hpos hr]
+    simp only []
+    rw [loadBuf_storeQuad]
+    by_cases c1 : k + off / 4 ≤ k + a / 32 ∧ k + a / 32 < k + off / 4 + span off v.length
+    · rw [if_pos c1]
+      have e : 32 * (k + a / 32 - (k + off / 4)) + a % 32 = a - 32 * (off / 4) := by omega
+      rw [e]
+      by_cases c2 : 8 * off ≤ a ∧ a < 8 * off + v.length
+      · have c3 : off % 4 * 8 ≤ a - 32 * (off / 4) ∧ a - 32 * (off / 4) < off % 4 * 8 + v.length := by omega
+        have e2 : a - 32 * (off / 4) - off % 4 * 8 = a - 8 * off := by omega
+        rw [if_pos c2, if_pos c3, e2]
+      · have c3 : ¬ (off % 4 * 8 ≤ a - 32 * (off / 4) ∧ a - 32 * (off / 4) < off % 4 * 8 + v.length) := by omega
+        rw [if_neg c2, if_neg c3]
+        simp only [loadBuf]
+        have e4 : k + off / 4 + (a - 32 * (off / 4)) / 32 = k + a / 32 := by omega
+        have e5 : (a - 32 * (off / 4)) % 32 = a % 32 := by omega
+        rw [e4, e5]
+    · rw [if_neg c1]
+      have c2 : ¬ (8 * off ≤ a ∧ a < 8 * off + v.length) := by
+        simp only [span] at c1; omega
+      rw [if_neg c2]
+
+/-! ## read-after-write and frame -/
+
+theorem fromBE_aux (l : List Nat) (acc : Nat) :
+    List.foldl (fun acc b => acc * 256 + b) acc l = acc * 256 ^ l.length + fromBE l := by
+  induction l generalizing acc with
+  | nil => simp [fromBE]
+  | cons b t ih =>
+    simp only [List.foldl_cons, fromBE, List.length_cons]
+    rw [ih, ih (0 * 256 + b)]
+    simp only [Nat.zero_mul, Nat.zero_add, Nat.pow_succ]
+    rw [Nat.add_mul, Nat.add_assoc]
+    congr 1
+    rw [Nat.mul_assoc, Nat.mul_comm 256]
+
+theorem fromBE_beBytes (len n : Nat) : fromBE (beBytes len n) = n % 256 ^ len := by
+  induction len with
+  | zero => simp [beBytes, fromBE, Nat.mod_one]
+  | succ m ih =>
+    simp only [beBytes, fromBE, List.foldl_cons, Nat.zero_mul, Nat.zero_add]
+    rw [fromBE_aux, beBytes_length, ih]
+    rw [Nat.pow_succ, Nat.mod_mul, Nat.add_comm, Nat.mul_comm]
+
+theorem read_after_write (st : Store) (k off : Nat) (v : List Nat) (r : Bool) (hpos : 0 < v.length)
+    (hr : r = false → off % 4 * 8 + v.length ≤ 32) :
+    readQuads (writeQuads st k off v r) k off v.length r = some v := by
+  rw [readQuads_eq _ k off v.length r hpos hr]
+  have hall : allSet (writeQuads st k off v r) (k + off / 4) (span off v.length) = true := by
+    rw [allSet_iff]
+    intro i hi
+    exact writeQuads_isSome st k off v r hpos hr _ (by omega)
+  rw [if_pos hall]
+  congr 1
+  apply List.ext_getElem
+  · simp
+  · intro a h1 h2
+    simp only [List.getElem_map, List.getElem_range]
+    rw [loadBuf_writeQuads st k off v r hpos hr, if_pos (by omega)]
+    have : 8 * off + a - 8 * off = a := by omega
+    simp [this, List.getD, List.getElem?_eq_getElem h2]
+
+/-- A read that succeeded before a write to the same base at a disjoint byte range still succeeds
+with the same value (other offsets in the touched slots are preserved). -/
+theorem write_frame (st : Store) (k off : Nat) (v : List Nat) (r : Bool) (hpos : 0 < v.length)
+    (hr : r = false → off % 4 * 8 + v.length ≤ 32)
+    (off' sz' : Nat) (r' : Bool) (hpos' : 0 < sz') (hr' : r' = false → off' % 4 * 8 + sz' ≤ 32)
+    (hdisj : 8 * off' + sz' ≤ 8 * off ∨ 8 * off + v.length ≤ 8 * off') (x : List Nat)
+    (h : readQuads st k off' sz' r' = some x) :
+    readQuads (writeQuads st k off v r) k off' sz' r' = some x := by
+  rw [readQuads_eq _ k off' sz' r' hpos' hr'] at h ⊢
+  by_cases ha : allSet st (k + off' / 4) (span off' sz') = true
+  · rw [if_pos ha] at h
+    have ha' : allSet (writeQuads st k off v r) (k + off' / 4) (span off' sz') = true := by
+      rw [allSet_iff] at ha ⊢
+      intro i hi
+      by_cases hin : k + off / 4 ≤ k + off' / 4 + i ∧ k + off' / 4 + i < k + off / 4 + span off v.length
+      · exact writeQuads_isSome st k off v r hpos hr _ hin
+      · rw [writeQuads_get_other st k off v r hr _ hin]; exact ha i hi
+    rw [if_pos ha', ← h]
+    congr 1
+    apply List.map_congr_left
+    intro a ha2
+    have : a < sz' := by simpa using ha2
+    rw [loadBuf_writeQuads st k off v r hpos hr, if_neg (by omega)]
+  · rw [if_neg ha] at h; cases h
+
+/-- A write does not change what a read sees whose slots are all outside the slots the write spans
+(another field / another key). -/
+theorem write_frame_other (st : Store) (k off : Nat) (v : List Nat) (r : Bool)
+    (hr : r = false → off % 4 * 8 + v.length ≤ 32)
+    (k2 off2 sz2 : Nat) (r2 : Bool) (hr2 : r2 = false → off2 % 4 * 8 + sz2 ≤ 32)
+    (hsep : ∀ i, i < span off2 sz2 →
+      ¬ (k + off / 4 ≤ k2 + off2 / 4 + i ∧ k2 + off2 / 4 + i < k + off / 4 + span off v.length)) :
+    readQuads (writeQuads st k off v r) k2 off2 sz2 r2 = readQuads st k2 off2 sz2 r2 := by
+  by_cases hz : sz2 = 0
+  · simp [readQuads, hz]
+  · apply readQuads_congr _ _ _ _ _ _ hr2
+    rw [slotCalc_eq k2 off2 sz2 r2 (by omega) hr2]
+    intro i hi
+    exact writeQuads_get_other st k off v r hr _ (hsep i hi)
+
+theorem span_zero_8 : span 0 8 = 1 := by decide
+
+theorem readLen_writeLen (st : Store) (k n : Nat) (hn : n < 2 ^ 64) : readLen (writeLen st k n) k = n := by
+  unfold readLen writeLen
+  have h := read_after_write st k 0 (beBytes 8 n) false (by simp) (by simp)
+  simp only [beBytes_length] at h
+  rw [h]
+  simp only []
+  rw [fromBE_beBytes]
+  exact Nat.mod_eq_of_lt (by simpa using hn)
+
+theorem writeLen_get_other (st : Store) (k n k' : Nat) (h : k' ≠ k) : (writeLen st k n).get k' = st.get k' := by
+  unfold writeLen
+  apply writeQuads_get_other st k 0 (beBytes 8 n) false (by simp)
+  simp only [beBytes_length, span_zero_8]
+  omega
 
 end SwayVerif.Storage
